@@ -395,4 +395,132 @@ theorem loginv_reachable {c : Cfg} {s : St} (h : Reachable c s) : LogInv c s :=
   reachable_induction (LogInv c) (loginv_init c)
     (fun _ _ _ hr hp hs => loginv_step (uniq_reachable hr) (wf_reachable hr) hp hs) s h
 
+theorem mem_subsOf {k : Sub} {l : List Ev} (h : k ∈ subsOf l) : Ev.subRet k ∈ l := by
+  induction l with
+  | nil => simp [subsOf] at h
+  | cons e rest ih =>
+    cases e <;> simp only [subsOf] at h <;> try exact List.mem_cons_of_mem _ (ih h)
+    rename_i k'
+    rcases List.mem_cons.mp h with h | h
+    · subst h; exact List.mem_cons_self
+    · exact List.mem_cons_of_mem _ (ih h)
+
+/-- the check of a `quiet` event holds in a quiescent reachable state -/
+theorem check_quiet {c : Cfg} (hv : Cfg.valid c) {s : St} (hr : Reachable c s) (hq : quiescent c s = true) :
+    checkEvent c s.log (.quiet (s.live && allOpen s) (pendingApi s.calls) (pendingWaits s.calls)
+      (zombies s.calls)) = true := by
+  have hli := loginv_reachable hr
+  have hw := wf_reachable hr
+  simp only [checkEvent, Bool.and_eq_true, Bool.or_eq_true, Bool.not_eq_true', beq_iff_eq,
+    Bool.and_eq_false_iff, List.all_eq_true]
+  refine ⟨⟨⟨zombies_zero hq, ?_⟩, ?_⟩, ?_⟩
+  · cases hl : s.live with
+    | false => simp
+    | true =>
+      cases ho : allOpen s with
+      | false => simp
+      | true => exact Or.inr (pendingApi_zero (idle_of_quiescent hv hw hl ho hq))
+  · cases hl : s.live with
+    | false => simp
+    | true =>
+      cases ho : allOpen s with
+      | false => simp
+      | true =>
+        cases hloss : c.lossless with
+        | false => simp
+        | true =>
+          right
+          simp only [Cfg.lossless, Bool.and_eq_true, beq_iff_eq] at hloss
+          intro k hk m _
+          cases hwin : inWindow s.log k m with
+          | false => simp
+          | true =>
+            right
+            simp only [inWindow, Bool.and_eq_true, Bool.not_eq_true', List.contains_iff_mem] at hwin
+            have hnu : Ev.unsubCall k ∉ s.log := by
+              have := hwin.2
+              intro hm; simp [hm] at this
+            have hin : k ∈ s.subs := hli.inMap hloss.2 k (mem_subsOf hk) hnu
+            have hsince := hli.since hloss.2 k hin m hwin.1.1 (by simpa using hwin.1.2)
+            have hone := once_at_quiet hloss.1 hv hr hl ho hq hin hsince
+            rw [hli.recvs k]
+            simp only [List.contains_iff_mem]
+            exact List.count_pos_iff.mp (by omega)
+  · cases hst : stopped s.log with
+    | false => simp
+    | true =>
+      right
+      have hd : s.live = false := by
+        have := hli.live; rw [hst] at this; simpa using this.symm
+      exact pendingWaits_zero (down_of_quiescent hd hq)
+
+theorem check_census {c : Cfg} {s : St} (hr : Reachable c s) (hq : quiescent c s = true) :
+    checkEvent c s.log (.census (alive s)) = true := by
+  have hli := loginv_reachable hr
+  simp only [checkEvent, Bool.or_eq_true, Bool.not_eq_true', beq_iff_eq]
+  cases hst : stopped s.log with
+  | false => simp
+  | true =>
+    right
+    have hd : s.live = false := by
+      have := hli.live; rw [hst] at this; simpa using this.symm
+    exact alive_zero (down_of_quiescent hd hq)
+
+/-- a message about to be received by `k` (it is in `k`'s channel or being sent to `k`) was
+    published and has not been received by `k` before -/
+theorem check_recv {c : Cfg} {s : St} (hr : Reachable c s) {k : Sub} {m : Msg}
+    (h : m ∈ s.chan k ∨ (k, m) ∈ s.sends) : checkEvent c s.log (.recv k m) = true := by
+  have hli := loginv_reachable hr
+  have hu := uniq_reachable hr
+  have hpos : 0 < (s.chan k).count m + s.sends.count (k, m) := by
+    rcases h with h | h
+    · have : 0 < (s.chan k).count m := List.count_pos_iff.mpr h
+      omega
+    · have : 0 < s.sends.count (k, m) := List.count_pos_iff.mpr h
+      omega
+  have hd := hu.donce k m
+  simp only [dcount] at hd
+  simp only [checkEvent, Bool.and_eq_true, Bool.not_eq_true', List.contains_iff_mem]
+  constructor
+  · rw [hli.recvs k]
+    cases hc : (s.recvd k).contains m with
+    | false => rfl
+    | true =>
+      have : 0 < (s.recvd k).count m := List.count_pos_iff.mpr (by simpa using hc)
+      omega
+  · have : m ∈ s.published := by
+      apply hu.pub
+      rw [count_flight]
+      have hdp : 0 < dcount s k m := by simp only [dcount]; omega
+      rcases hu.dsrc k m hdp with h | ⟨w, start, visited, hw, _⟩
+      · have : 0 < s.fin.count m := List.count_pos_iff.mpr h
+        omega
+      · have := count_workerMsgs_ge hw m
+        simp only [Worker.msgs, List.count_cons_self, List.count_nil] at this
+        omega
+    simpa using hli.pubc m this
+
+theorem eventsOk_step {c : Cfg} (hv : Cfg.valid c) {s s' : St} {a : Act} (hr : Reachable c s)
+    (hi : eventsOk c s.log = true) (h : Step c s a s') : eventsOk c s'.log = true := by
+  cases h <;> first
+    | exact hi
+    | (simp only [eventsOk, checkEvent]; exact hi)
+    | skip
+  case observeQuiet hq =>
+    simp only [eventsOk, Bool.and_eq_true]
+    exact ⟨check_quiet hv hr hq, hi⟩
+  case census hq =>
+    simp only [eventsOk, Bool.and_eq_true]
+    exact ⟨check_census hr hq, hi⟩
+  case handoff k m hs hb ho =>
+    simp only [eventsOk, Bool.and_eq_true]
+    exact ⟨check_recv hr (Or.inr hs), hi⟩
+  case recv k m rest hb ho =>
+    simp only [eventsOk, Bool.and_eq_true]
+    exact ⟨check_recv hr (Or.inl (by rw [hb]; exact List.mem_cons_self)), hi⟩
+
+theorem eventsOk_reachable {c : Cfg} (hv : Cfg.valid c) {s : St} (h : Reachable c s) : eventsOk c s.log = true :=
+  reachable_induction (fun s => eventsOk c s.log = true) (by simp [init, eventsOk])
+    (fun _ _ _ hr hp hs => eventsOk_step hv hr hp hs) s h
+
 end FunProofs.Broker
